@@ -340,6 +340,12 @@ def stepT (st : St) (op : List String) (impl : Option (List String)) : St × Str
     | .fuel => finishT st "diverges" t (judgeT impl false none2)
     | .exc => finishT st "exc:bpp" t (judgeT impl false none2)
     | .ub => finishT st "ub" t (judgeT impl false none2)
+  | ["t.setOutGroup", n] =>
+    match t.setOutGroup (nat n) with
+    | .ok r => finishT st (gres okS r.1) r.2 (judgeT impl false none2)
+    | .fuel => finishT st "diverges" t (judgeT impl false none2)
+    | .exc => finishT st "exc:bpp" t (judgeT impl false none2)
+    | .ub => finishT st "ub" t (judgeT impl false none2)
   | ["t.valid"] =>
     let (r, t') := t.isValid
     finishT st (showR showBool r) t' (judgeT impl true none2)
